@@ -460,7 +460,10 @@ def c17(tier, seed):
     thr = []
     for k in ((3,) if tier == "quick" else (0, 1, 2, 3, 4, 6, 9, 14, 20)):
         thr += q_rel(4, K=1, only=["discover", "query", "qltlv_icon", "emit", "probe"], preempt_at=k)
-    qs = q_rel(3) + [q_preempt(True), q_preempt(False)] + il + thr
+    tabiso = Query("c17_table_isolation", "c16_table.c", "h_isolation", unwind=17, backends=("cadical", "minisat", "kissat"), timeout=900, mem_gb=10, safety_for=("C01", "C17"),
+                   bounds={"tables": "two session tables (two interfaces); B's table primed by add and/or find of a symbolic key, then find/add/remove/tick on A's table with the same key"},
+                   desc="automata layer: session-table operations of one interface never return or touch entries of another interface's table (hidden shared state)")
+    qs = q_rel(3) + [q_preempt(True), q_preempt(False), tabiso] + il + thr
     if tier == "thorough":
         more = q_rel(3, K=3)
         for q in more:
